@@ -12,7 +12,8 @@ from vf.ref import refeval as R
 
 ID = 'C13'
 LEVEL = 'exploration'
-RULE = ('sampled (Hypothesis-decoded): random acyclic models (dependency '
+RULE = ('Half of the cases with a named range first handle a SIBLING model (same names, another extent) in the same process.  '
+        'sampled (Hypothesis-decoded): random acyclic models (dependency '
         'depth 0..5, through cells and ranges, 1-2 sheets; a third of them '
         'loaded from a generated .xlsx with defined names bound to inputs, '
         'formula cells and ranges, used inside formulas and as focus '
